@@ -227,11 +227,21 @@ class Project(object):
                 m = ModuleInfo(mod, path, rel, src)
                 self.modules[mod] = m
         if self.normalise:
-            from .normalize import normalise_trees
-            try:
-                self.normal_form = normalise_trees({n: m.tree for n, m in self.modules.items()})
-            except RecursionError as e:
-                raise AnalysisError('normalisation failed: %s' % e)
+            from .normalize import normalise_trees, StageFailure
+            disabled = []
+            for attempt in range(5):
+                try:
+                    self.normal_form = normalise_trees(
+                        {n: m.tree for n, m in self.modules.items()}, disabled=tuple(disabled))
+                    break
+                except RecursionError as e:
+                    raise AnalysisError('normalisation failed: %s' % e)
+                except StageFailure as e:
+                    # parse again and go on without the stage that failed
+                    disabled.append(e.stage)
+                    self.notes = getattr(self, 'notes', []) + ['normaliser stage skipped: %s' % e]
+                    for m in self.modules.values():
+                        m.tree = ast.parse(m.src, filename=m.path)
         for m in self.modules.values():
             self._index_module(m)
 
